@@ -23,6 +23,14 @@ def run(ctx):
                         "modulo 65536 and 'reported = last emitted'"]
     E.rule_counter_writers(res, "C09-R1", m)
     E.rule_frame_stamped(res, "C09-R2", m)
+    # stamped frames are never dropped: the frame list only grows until it is handed out
+    for wf, kind, n in m.writes.get(m.frames, []):
+        if not (isinstance(n, dict) and n.get("k") == "call" and E.strip_all_casts(n.get("obj", {})).get("field") == m.frames):
+            continue
+        okk = kind in ("call:push_back", "call:emplace_back", "call:clear", "call:operator=")
+        res.check(okk, "C09-R2", "frames:%s:%s" % (wf.name.split("::")[-1], kind), n.get("loc"), "frame list only grows / is cleared / moved out",
+                  "a frame is removed from the frame list by %s in %s after it was stamped: its sequence number is consumed but never emitted, so the "
+                  "reported counter is ahead of the last emitted frame and the next frame skips a number" % (kind.split(":")[-1], wf.name))
     E.rule_identity(res, "C09-R3", m)
     E.rule_type_change_rebuilds_template(res, "C09-R4", m)
     obs, _ = accessors.analyse(fb, ctx.spec("layout.json"))
